@@ -40,9 +40,16 @@ Same == UNCHANGED <<verdict>>
 
 TInit == /\ AInit /\ tid = 1 /\ l = 1 /\ verdict = "ok" /\ obsHanded = <<>> /\ rdy = 0 /\ recv0 = 0 /\ tbl = <<>> /\ owe = FALSE /\ cmd = NoCmd /\ fl0 = -1
 
-FirstFailing(cs) ==   \* cs: sequence of <<holds, name>>
+\* cs: sequence of <<holds, name>>.  The verdict names every failing clause of the event, first one first, joined by
+\* "|": each property's check finds its own clauses even when a clause of another property fails earlier in the list.
+RECURSIVE JoinFailing(_, _)
+JoinFailing(cs, i) ==
+  IF i > Len(cs) THEN ""
+  ELSE IF cs[i][1] THEN JoinFailing(cs, i + 1)
+  ELSE LET rest == JoinFailing(cs, i + 1) IN IF rest = "" THEN cs[i][2] ELSE cs[i][2] \o "|" \o rest
+FirstFailing(cs) ==
   LET bad == {i \in 1..Len(cs) : ~cs[i][1]} IN
-  IF bad = {} THEN "ok" ELSE cs[MinOf(bad)][2]
+  IF bad = {} THEN "ok" ELSE JoinFailing(cs, 1)
 
 TCall ==
   /\ Has("call")
